@@ -50,6 +50,9 @@ var c18Alphabet = []c18Set{
 	{"table=50+frame=20000", []peer.Setting{{ID: 1, Val: 50}, {ID: 5, Val: 20000}}, 0},
 	{"window=5,window=70000", []peer.Setting{{ID: 4, Val: 5}, {ID: 4, Val: 70000}}, 0},
 	{"table=0,table=4096", []peer.Setting{{ID: 1, Val: 0}, {ID: 1, Val: 4096}}, 0},
+	{"window=100000+frame=32768", []peer.Setting{{ID: 4, Val: 100000}, {ID: 5, Val: 32768}}, 0},
+	{"streams=5+table=200", []peer.Setting{{ID: 3, Val: 5}, {ID: 1, Val: 200}}, 0},
+	{"all six", []peer.Setting{{ID: 1, Val: 300}, {ID: 2, Val: 0}, {ID: 3, Val: 7}, {ID: 4, Val: 80000}, {ID: 5, Val: 17000}, {ID: 6, Val: 100000}}, 0},
 }
 
 type c18Case struct {
@@ -60,6 +63,8 @@ type c18Case struct {
 	BigBody  bool   `json:"big_body"`
 	Two      bool   `json:"two_exchanges"`
 	Extra    string `json:"extra,omitempty"`
+	// BigFrames: the peer's first SETTINGS (handshake) already allows 65536-byte frames and a 4 MiB window
+	BigFrames bool `json:"big_frames_in_handshake,omitempty"`
 }
 
 // peerLimits tracks what the peer has told the endpoint.
@@ -90,11 +95,18 @@ func (l *peerLimits) apply(ss []peer.Setting) (tableDip int) {
 // ---- server role ----
 
 func c18Server(cs c18Case) (*fw.Violation, *harness.Server) {
-	h := harness.NewServer(harness.ServerOpts{MaxConcurrentStreams: 4})
+	so := harness.ServerOpts{MaxConcurrentStreams: 4}
+	if cs.BigFrames {
+		so.PeerSettings = []peer.Setting{{ID: 4, Val: 4 << 20}, {ID: 5, Val: 65536}}
+	}
+	h := harness.NewServer(so)
 	mk := func(rule, shape, detail string) *fw.Violation {
 		return &fw.Violation{Rule: rule, Shape: "server " + shape, Detail: detail + "\n    events: " + strings.Join(h.EventLog, " ; "), Replay: map[string]any{"family": "c18", "case": cs}}
 	}
 	lim := &peerLimits{frame: 16384, table: 4096, streams: 1 << 30}
+	if cs.BigFrames {
+		lim.frame = 65536
+	}
 	adv := false
 	for _, st := range h.Settings {
 		for _, p := range st {
@@ -330,7 +342,11 @@ func firstRep(fs []ref.DecField) string {
 // ---- client role ----
 
 func c18Client(cs c18Case) (*fw.Violation, *harness.Client) {
-	h := harness.NewClient(harness.ClientOpts{})
+	co := harness.ClientOpts{}
+	if cs.BigFrames {
+		co.ServerSettings = []peer.Setting{{ID: 4, Val: 4 << 20}, {ID: 5, Val: 65536}}
+	}
+	h := harness.NewClient(co)
 	mk := func(rule, shape, detail string) *fw.Violation {
 		return &fw.Violation{Rule: rule, Shape: "client " + shape, Detail: detail + "\n    events: " + strings.Join(h.EventLog, " ; "), Replay: map[string]any{"family": "c18", "case": cs}}
 	}
@@ -352,6 +368,9 @@ func c18Client(cs c18Case) (*fw.Violation, *harness.Client) {
 		return s
 	}
 	lim := &peerLimits{frame: 16384, table: 4096, streams: 100}
+	if cs.BigFrames {
+		lim.frame = 65536
+	}
 	mirror := ref.NewTable()
 	pendingDip := -1
 	seen := 0
@@ -705,6 +724,37 @@ func runC18(c *fw.Ctx) {
 						}
 					}
 				}
+			}
+		}
+	}
+	// the peer starts with large frames and a large window, then changes its mind
+	for _, role := range []string{"server", "client"} {
+		for a := range c18Alphabet {
+			for pa := 0; pa < 5; pa++ {
+				do(c18Case{Role: role, Settings: []int{a}, At: []int{pa}, BigHdr: true, BigBody: true, Two: true, BigFrames: true})
+				if thorough {
+					do(c18Case{Role: role, Settings: []int{a}, At: []int{pa}, BigHdr: false, BigBody: true, Two: true, BigFrames: true})
+					for b := range c18Alphabet {
+						do(c18Case{Role: role, Settings: []int{a, b}, At: []int{pa, pa}, BigHdr: true, BigBody: true, Two: true, BigFrames: true})
+					}
+				}
+			}
+		}
+	}
+	// raise with one frame, lower with the next, at every pair of positions
+	raise, lower := -1, -1
+	for i, st := range c18Alphabet {
+		if st.Name == "window=100000+frame=32768" {
+			raise = i
+		}
+		if st.Name == "frame=16384" {
+			lower = i
+		}
+	}
+	for _, role := range []string{"server", "client"} {
+		for pa := 0; pa < 5; pa++ {
+			for pb := pa; pb < 5; pb++ {
+				do(c18Case{Role: role, Settings: []int{raise, lower}, At: []int{pa, pb}, BigHdr: true, BigBody: true, Two: true})
 			}
 		}
 	}
